@@ -168,9 +168,20 @@ Print Assumptions C16_late_304_not_merged.
    URL key (ProvProofs.v: the store invariant is kept by every single step of every thread) *)
 From HC.Proofs Require Import ProvProofs.
 Theorem C16_right_resource : forall T qs w sched cw n H0 i q r,
-  InvS (Gl H0) (w_store w) ->
+  InvS (Gl H0) (Pl H0) (w_store w) ->
   run_schedule T sched (start_of qs w) 0 = (cw, n) ->
   nth_error qs i = Some q -> nth_error (cw_fg cw) i = Some (TDoneFg q (Done (OResp r))) ->
   Gl (w_log (cw_w cw) ++ H0) (make_url_key (q_url q)) (p_body r).
-Proof. intros. eapply concurrent_provenance; eassumption. Qed.
+Proof. intros T qs w sched cw n H0 i q r HI Hrun Hq Ht. exact (proj2 (concurrent_provenance T qs w sched cw n H0 HI Hrun) i q r Hq Ht). Qed.
 Print Assumptions C16_right_resource.
+
+(* ... and the store invariant itself (every entry filed under the variant key of a request that was sent for
+   its URL key, under the entry's own Vary field; every reference under the key of its own variant map) is
+   kept by every single step of every thread: what C03_history_provenance and C04_history_variant conclude
+   from it along sequential histories holds of the store after any schedule *)
+Theorem C16_store_invariant : forall T qs w sched cw n H0,
+  InvS (Gl H0) (Pl H0) (w_store w) ->
+  run_schedule T sched (start_of qs w) 0 = (cw, n) ->
+  InvS (Gl (w_log (cw_w cw) ++ H0)) (Pl (w_log (cw_w cw) ++ H0)) (w_store (cw_w cw)).
+Proof. intros T qs w sched cw n H0 HI Hrun. exact (proj1 (concurrent_provenance T qs w sched cw n H0 HI Hrun)). Qed.
+Print Assumptions C16_store_invariant.
